@@ -165,6 +165,29 @@ class TypeTag:
     def __hash__(self): return hash(self.name)
 
 
+def _mk_ew():
+    B = lambda op: (lambda it, a, e, fr: it.binop(op, a[0], a[1], e, fr) if len(a) == 2 else NotImplemented)
+    U = lambda f: (lambda it, a, e, fr: f(a[0]) if len(a) == 1 else NotImplemented)
+    pi_ = lambda: X.atom('pi', 'pos')
+    return {
+        'add': B(ast.Add()), 'subtract': B(ast.Sub()), 'multiply': B(ast.Mult()), 'divide': B(ast.Div()), 'true_divide': B(ast.Div()), 'floor_divide': B(ast.FloorDiv()),
+        'negative': U(lambda x: X.neg(x)), 'positive': U(lambda x: x), 'reciprocal': U(lambda x: X.div(X.ONE, x)),
+        'hypot': (lambda it, a, e, fr: X.sqrt(X.add(X.mul(a[0], a[0]), X.mul(a[1], a[1]))) if len(a) == 2 else NotImplemented),
+        'arctan2': (lambda it, a, e, fr: X.fn('atan2', a[0], a[1]) if len(a) == 2 else NotImplemented),
+        'deg2rad': U(lambda x: X.div(X.mul(x, pi_()), X.const(180))), 'radians': U(lambda x: X.div(X.mul(x, pi_()), X.const(180))),
+        'rad2deg': U(lambda x: X.div(X.mul(x, X.const(180)), pi_())), 'degrees': U(lambda x: X.div(X.mul(x, X.const(180)), pi_())),
+        'expm1': U(lambda x: X.add(X.fn('exp', x), X.neg(X.ONE))), 'exp2': U(lambda x: X.power(X.const(2), x)),
+        'arcsin': U(lambda x: X.fn('asin', x)), 'arccos': U(lambda x: X.fn('acos', x)), 'arctan': U(lambda x: X.fn('atan', x)), 'asin': U(lambda x: X.fn('asin', x)),
+        'acos': U(lambda x: X.fn('acos', x)), 'atan': U(lambda x: X.fn('atan', x)),
+        'sinh': U(lambda x: X.div(X.add(X.fn('exp', x), X.neg(X.fn('exp', X.neg(x)))), X.const(2))), 'cosh': U(lambda x: X.div(X.add(X.fn('exp', x), X.fn('exp', X.neg(x))), X.const(2))),
+        'tanh': U(lambda x: X.div(X.add(X.fn('exp', x), X.neg(X.fn('exp', X.neg(x)))), X.add(X.fn('exp', x), X.fn('exp', X.neg(x))))),
+        'angle': U(lambda x: X.fn('atan2', X.fn('imag', x), X.fn('real', x))),
+    }
+
+
+_EW_FUNCS = _mk_ew()
+
+
 class Ref:
     """address-of a local scalar: &x"""
     def __init__(self, frame, name): self.frame = frame; self.name = name
@@ -1336,6 +1359,36 @@ class Interp:
             for dmn in dims: ext *= dmn
             arr.extent = ext
             return arr
+        # ---- element-wise numpy / math functions that are plain arithmetic (scalars, or 1-d arrays element by element)
+        if nm in _EW_FUNCS and args and all(is_num(a_) or isinstance(a_, (bool, Vec)) for a_ in args) and not isinstance(args[0], Arr):
+            vecs = [a_ for a_ in args if isinstance(a_, Vec)]
+            if vecs:
+                n_ = len(vecs[0])
+                if any(len(v_) != n_ for v_ in vecs):
+                    raise AnalysisError(f'{fr.mod.where(e)}: array length mismatch in {nm}')
+                return Vec([self.builtin(name, [a_[i_] if isinstance(a_, Vec) else a_ for a_ in args], kwargs, e, fr) for i_ in range(n_)])
+            r_ = _EW_FUNCS[nm](self, [to_node(a_) if not isinstance(a_, bool) else X.const(int(a_)) for a_ in args], e, fr)
+            if r_ is not NotImplemented:
+                c_ = concrete(r_)
+                return c_ if isinstance(c_, int) and all(isinstance(concrete(a_), int) for a_ in args) else r_
+        if nm in ('isscalar',) and args:
+            return is_num(args[0]) or isinstance(args[0], bool)
+        if nm in ('ndim',) and args and (is_num(args[0]) or isinstance(args[0], Vec)):
+            return 1 if isinstance(args[0], Vec) else 0
+        if nm in ('atleast_1d', 'ravel', 'squeeze', 'flatten') and args and isinstance(args[0], Vec):
+            return args[0]
+        if nm == 'dot' and len(args) == 2 and all(isinstance(a_, Vec) for a_ in args) and len(args[0]) == len(args[1]):
+            acc = 0
+            for x_, y_ in zip(args[0], args[1]): acc = self.binop(ast.Add(), acc, self.binop(ast.Mult(), x_, y_, e, fr), e, fr)
+            return acc
+        if nm == 'fsum' and args and isinstance(args[0], (list, tuple)):
+            acc = 0
+            for x_ in args[0]: acc = self.binop(ast.Add(), acc, x_, e, fr)
+            return acc
+        if nm == 'full_like' and len(args) >= 2 and isinstance(args[0], Vec):
+            return Vec([args[1] for _ in args[0]])
+        if nm == 'full_like' and len(args) >= 2 and is_num(args[0]):
+            return args[1]
         if nm == 'range':
             vals = []
             for a in args:
